@@ -356,6 +356,9 @@ def run_check(spec):
         red.append({"what": "harness-build", "detail": str(e)[-3000:]})
     except subprocess.TimeoutExpired as e:
         red.append({"what": "harness-timeout", "detail": str(e)[-1000:]})
+    except Exception as e:   # the machinery itself tripped over what /repo now says: fails closed, never silently
+        import traceback
+        red.append({"what": "check-internal-error", "detail": traceback.format_exc()[-3000:]})
 
     # 5 verdict
     known_hits = {}
